@@ -49,7 +49,7 @@ def cases(tier, seed):
             yield {"kind": "small", "n": 4, "form": "bare4", "graphs": graphs[i:i + 128]}
     for i in range(160 if tier == "quick" else 5000):
         yield {"kind": "random", "seed": seed, "idx": i}
-    for i in range(6 if tier == "quick" else 60):
+    for i in range(12 if tier == "quick" else 60):
         yield {"kind": "fnarg", "seed": seed, "idx": i}
 
 
@@ -459,7 +459,12 @@ def fnarg_child(arg):
         res["not_passed"] = "undeclared"
     wrap = {"bare": lambda f: f, "list": lambda f: [f], "dict": lambda f: {"k": f}, "nested": lambda f: {"k": [1, [f]]}}[arg["how"]]
     try:
-        res["passed"] = mod.caller(2, wrap(mod.outside))
+        if arg.get("via") == "partial_kw":  # handed over when the function is partially applied, by keyword / by position
+            res["passed"] = mod.caller.partial(fns=wrap(mod.outside))(2)
+        elif arg.get("via") == "partial_pos":
+            res["passed"] = mod.caller.partial(2, wrap(mod.outside))()
+        else:
+            res["passed"] = mod.caller(2, wrap(mod.outside))
     except Exception as e:
         res["passed"] = "raise:%s:%s" % (type(e).__name__, str(e)[:200])
     try:
@@ -476,7 +481,9 @@ def run_fnarg(case, out, fail):
     how = ["bare", "list", "dict", "nested"][case["idx"] % 4]
     pick = {"bare": "g = fns", "list": "g = fns[0]", "dict": "g = fns[\"k\"]", "nested": "g = fns[\"k\"][1][0]"}[how]
     with env.Scratch() as sc:
-        res = procs.in_child(fnarg_child, {"root": sc.path("f"), "mod": "vfn_%d" % case["idx"], "how": how, "pick": pick})
+        via = ["call", "partial_kw", "partial_pos"][(case["idx"] // 4) % 3]
+        res = procs.in_child(fnarg_child, {"root": sc.path("f"), "mod": "vfn_%d" % case["idx"], "how": how, "pick": pick, "via": via})
+        how = how + " / " + via
         out["obs"]["function_argument_scenarios"] += 1
         if res["closure"] != ["inside"]:
             fail("transitive memento dependencies differ from reachability in the reference graph", "fnarg module: %s" % res["closure"])
